@@ -14,3 +14,8 @@ add('C15', 'exploration', 'runtime monitor: real emitters driven over exhaustive
     'The emitters themselves are executed on every value of each 16-bit lane (several bases), every offset in a band around the +-2GiB decision boundary and random pairs; the bytes are decoded by the reference decoders and the resulting control transfer is computed and compared with the request. Exhaustive per lane and across the band, sampled elsewhere.',
     'Trusts the reference decoders; arm64 emitters are the current /repo sources compiled for amd64 (pure Go).',
     'DESIGN.md 2 C15')
+
+add('C20', 'exploration', 'offline interval-disjointness checker over recorded allocation histories under spin-barrier stress; fault injection of mmap failure (RLIMIT_AS, size)',
+    'The real allocator is hammered by 1-64 goroutines released together, thousands of rounds over many processes; every granted region is recorded and checked offline for overlap/containment/size; the public Acquire path is checked for rwx, write/read-back and by executing a written stub; the mmap-failure dispatch is provoked for real. Schedules are sampled (the evidence counts time-overlapping requests).',
+    'Schedules are those 16 cores produce; bump-pointer reset between rounds is treated as starting a new history.',
+    'DESIGN.md 2 C20')
